@@ -38,9 +38,11 @@ def _case(draw, tier):
     g = draw(gen.int_train_lists(2, nmax, related=draw(st.sampled_from([True, True, False])),
                                  **sz))
     c = gen.to_times(g)
-    c["mrts"] = draw(gen.mrts_for(g))
+    c["mrts"] = draw(gen.mrts_for(g, allow_auto=True))
     c["max_tau"] = draw(gen.maxtau_for(g))
-    c["indices"] = draw(indices_for(len(c["trains"])))
+    # 'auto' together with `indices`: the statement does not say which trains
+    # are pooled for the threshold, so that combination is not generated
+    c["indices"] = None if c["mrts"] == "auto" else draw(indices_for(len(c["trains"])))
     c["normalize"] = draw(st.booleans())
     c["compiled"] = draw(st.booleans())
     return c
@@ -77,9 +79,9 @@ def _sel(case):
     return list(range(N)) if case["indices"] is None else list(case["indices"])
 
 
-def _model(case):
+def _model(case, pool=None):
     trs, T0, T1 = ps.fr_trains(case)
-    m = Fr(case["mrts"] or 0)
+    m = ps.mrts_exact(case, pool)
     mt = Fr(case["max_tau"]) if case.get("max_tau") else None
     return trs, T0, T1, m, mt
 
@@ -138,7 +140,9 @@ def run_case(case, ctx):
     a, b = sel[0], sel[1]
     A, B = trs[a], trs[b]
 
-    # 1. bivariate order profile and swap negation
+    # 1. bivariate order profile and swap negation ('auto' pools the pair)
+    m_all = m
+    m = _model(case, [a, b])[3]
     exp = O.order_profile(A, B, T0, T1, m, mt)
     f = ctx.call("order_profile_bi", pyspike.spike_train_order_profile, sts[a], sts[b], **kw)
     ctx.check(_entries(f) == [(t, Fr(y), Fr(mp)) for t, y, mp in exp], "order_profile",
@@ -168,7 +172,8 @@ def run_case(case, ctx):
         ctx.check(ps.close(d_n, Fr(sum(dA), len(A)), 1e-12), "directionality_normalized",
                   lambda: "got %r expected %r" % (d_n, float(Fr(sum(dA), len(A)))))
 
-    # 3. values per spike over the selected trains
+    # 3. values per spike over the selected trains ('auto' pools the list)
+    m = m_all
     vals = ctx.call("directionality_values", pyspike.spike_directionality_values,
                     sts, **ikw, **kw)
     ctx.check(len(vals) == nsel, "values_length",
